@@ -50,6 +50,11 @@ pub struct SubjectSpec {
     /// start from the unmutated draw of an earlier subject (same headers, UETR, references) instead of a fresh draw
     #[serde(default)]
     pub sibling_of: Option<usize>,
+    /// rewrite block 2 of the published text into an Output application header (`{2:O…}`) before
+    /// the subject is parsed (all shipped scenarios use Input headers); ignored if the library
+    /// does not accept the rewritten text
+    #[serde(default)]
+    pub output_header: bool,
     pub plan: MutPlan,
 }
 
@@ -106,7 +111,7 @@ pub struct C13;
 const CUR: &[&str] = &["USD", "EUR", "JPY", "GBP", "CHF", "BHD", "XAU", "XXX", "KWD", "CLF"];
 const CODES: &[&str] = &[
     "CHQB", "SPRI", "SSTD", "SPAY", "CRED", "CRTS", "OUR", "BEN", "SHA", "SDVA", "INTC", "REPA", "CORT", "HOLD", "PHOB", "TELB", "PHON", "RTGS", "NETS", "URGP", "OTHR", "CMTO", "AUTH", "NAUT", "RFDD", "RTND",
-    "EQUI", "TELE", "PHOI", "TELI", "NCHG", "NINT", "940", "941", "942", "950", "103", "202", "C", "D", "RC", "RD", "ABCD", "CHEQ", "COLL", "FDDW", "ACCT", "DIRT",
+    "EQUI", "TELE", "PHOI", "TELI", "NCHG", "NINT", "CMSW", "CMZB", "CMSW", "CMZB", "CMTO", "CORT", "940", "941", "942", "950", "103", "202", "C", "D", "RC", "RD", "ABCD", "CHEQ", "COLL", "FDDW", "ACCT", "DIRT",
 ];
 const LINES: &[&str] = &["/REJT/", "/RETN/", "/INS/ABNANL2A", "/ACC/TEXT", "/RCB/ABC", "//CONT", "/PURP/CASH", "REJT", "/CLSTIME/0915+0100", "/REC/X", "/INT/Y"];
 const POOL: &[&str] = &[
@@ -231,7 +236,43 @@ fn propose(g: &Value, donor: &Value, donor2: &Value, vocab: &[String], r: &mut S
         return None;
     }
     let s = |x: &&str| Value::String(x.to_string());
-    match r.below(16) {
+    match r.below(18) {
+        16 | 17 => {
+            // a list of coded elements (23E instruction codes and the like) replaced by 2–4 elements
+            // with different codes from the pool: code-combination rules need several codes at once
+            let mut cands: Vec<(Vec<String>, String)> = vec![];
+            for (p, _) in &ls {
+                if let Some(Value::Array(a)) = get(g, p) {
+                    if let Some(Value::Object(o)) = a.first() {
+                        if let Some(k) = o.iter().find(|(k, v)| k.contains("code") && v.is_string()).map(|(k, _)| k.clone()) {
+                            cands.push((p.clone(), k));
+                        }
+                    }
+                }
+            }
+            if cands.is_empty() {
+                return None;
+            }
+            let (path, key) = cands[r.below(cands.len())].clone();
+            let template = get(g, &path)?.as_array()?.first()?.clone();
+            let n = 2 + r.below(3);
+            let mut codes: Vec<&str> = vec![];
+            while codes.len() < n {
+                let c = *r.pick(CODES);
+                if c.len() == 4 && !codes.contains(&c) {
+                    codes.push(c);
+                }
+            }
+            let arr: Vec<Value> = codes
+                .iter()
+                .map(|c| {
+                    let mut e = template.clone();
+                    e[&key] = Value::String(c.to_string());
+                    e
+                })
+                .collect();
+            Some(MutOp::Set { path, value: Value::Array(arr) })
+        }
         14 | 15 => {
             // a key the type accepts but the draw does not carry, filled with a field object of the
             // draw (as is, wrapped in a list, or twice with a changed currency in the second copy)
@@ -490,7 +531,7 @@ fn snap_digest(p: &ParsedSwiftMessage) -> (u64, u64) {
 enum OpResult {
     Errors(Vec<Value>, Vec<String>),
     VResult { is_valid: bool, errors: Vec<Value>, warnings: usize },
-    Plugin { out: Value, exec_err: Option<String>, polls: u32 },
+    Plugin { out: Value, exec_err: Option<String>, polls: u32, input_changed: Option<String> },
     Snap(u64, u64),
     Edited { applied: bool, full: Vec<Value>, full_codes: Vec<String>, stop: Vec<Value>, valid: (bool, usize), pristine_full: Vec<Value>, pristine_codes: Vec<String> },
     Panicked(String),
@@ -526,12 +567,18 @@ fn exec_clone_edit(s: &Subject, donor: &Subject, how: u64) -> OpResult {
 }
 
 fn exec_plugin_reuse(s: &Subject, msg: &mut Message) -> OpResult {
-    msg.data_mut()["mt"] = Value::String(s.text.clone());
+    let object_shape = s.text.len() % 3 == 0;
+    let input = if object_shape { json!({"mt_message": s.text}) } else { Value::String(s.text.clone()) };
+    msg.data_mut()["mt"] = input.clone();
     msg.invalidate_context_cache();
     let cfg = FunctionConfig::Custom { name: "validate_mt".into(), input: json!({"source": "mt", "target": "vr"}) };
     let h = swift_mt_message::plugin::Validate;
     match block_on(h.execute(msg, &cfg, Arc::new(datalogic_rs::DataLogic::new()))) {
-        Ok((r, polls)) => OpResult::Plugin { out: msg.data().get("vr").cloned().unwrap_or(Value::Null), exec_err: r.err().map(|e| format!("{e:?}")), polls },
+        Ok((r, polls)) => {
+            let after = msg.data().get("mt").cloned().unwrap_or(Value::Null);
+            let input_changed = if after != input { Some(format!("the source field was {} before the call and is {} after it", short(&input), short(&after))) } else { None };
+            OpResult::Plugin { out: msg.data().get("vr").cloned().unwrap_or(Value::Null), exec_err: r.err().map(|e| format!("{e:?}")), polls, input_changed }
+        }
         Err(e) => OpResult::Harness(e),
     }
 }
@@ -554,12 +601,19 @@ fn exec_op(kind: OpKind, s: &Subject) -> OpResult {
         }
         OpKind::PluginDirect => {
             let mut msg = Message::from_value(&json!({}));
-            msg.data_mut()["mt"] = Value::String(s.text.clone());
+            // both documented source shapes: the bare text, and an object carrying it as `mt_message`
+            let object_shape = s.text.len() % 2 == 0;
+            let input = if object_shape { json!({"mt_message": s.text, "origin": "generate_mt"}) } else { Value::String(s.text.clone()) };
+            msg.data_mut()["mt"] = input.clone();
             msg.invalidate_context_cache();
             let cfg = FunctionConfig::Custom { name: "validate_mt".into(), input: json!({"source": "mt", "target": "vr"}) };
             let h = swift_mt_message::plugin::Validate;
             match block_on(h.execute(&mut msg, &cfg, Arc::new(datalogic_rs::DataLogic::new()))) {
-                Ok((r, polls)) => OpResult::Plugin { out: msg.data().get("vr").cloned().unwrap_or(Value::Null), exec_err: r.err().map(|e| format!("{e:?}")), polls },
+                Ok((r, polls)) => {
+                    let after = msg.data().get("mt").cloned().unwrap_or(Value::Null);
+                    let input_changed = if after != input { Some(format!("the source field was {} before the call and is {} after it", short(&input), short(&after))) } else { None };
+                    OpResult::Plugin { out: msg.data().get("vr").cloned().unwrap_or(Value::Null), exec_err: r.err().map(|e| format!("{e:?}")), polls, input_changed }
+                }
                 Err(e) => OpResult::Harness(e),
             }
         }
@@ -582,7 +636,7 @@ fn exec_op(kind: OpKind, s: &Subject) -> OpResult {
                     if err.is_none() && !msg.errors.is_empty() {
                         err = Some(msg.errors[0].message.clone());
                     }
-                    OpResult::Plugin { out: msg.data().get("vr").cloned().unwrap_or(Value::Null), exec_err: err, polls }
+                    OpResult::Plugin { out: msg.data().get("vr").cloned().unwrap_or(Value::Null), exec_err: err, polls, input_changed: None }
                 }
                 Err(e) => OpResult::Harness(e),
             }
@@ -594,7 +648,7 @@ fn digest_result(r: &OpResult) -> String {
     match r {
         OpResult::Errors(v, codes) => format!("errors[{}] {} {}", v.len(), codes.join(","), hex(fnv_str(&serde_json::to_string(v).unwrap_or_default()))),
         OpResult::VResult { is_valid, errors, warnings } => format!("vresult valid={is_valid} errors={} warnings={warnings} {}", errors.len(), hex(fnv_str(&serde_json::to_string(errors).unwrap_or_default()))),
-        OpResult::Plugin { out, exec_err, polls } => {
+        OpResult::Plugin { out, exec_err, polls, .. } => {
             let mut o = out.clone();
             if let Some(m) = o.as_object_mut() {
                 m.remove("timestamp");
@@ -708,7 +762,10 @@ impl History {
                             _ => {}
                         }
                     }
-                    (OpKind::PluginDirect | OpKind::PluginEngine | OpKind::PluginReuse, OpResult::Plugin { out, exec_err, .. }) => {
+                    (OpKind::PluginDirect | OpKind::PluginEngine | OpKind::PluginReuse, OpResult::Plugin { out, exec_err, input_changed, .. }) => {
+                        if let Some(c) = input_changed {
+                            return Some(viol(format!("C13/I6 {mt} validate_mt changed the message it was asked to validate"), format!("operation {seq} on subject {m}: {c}")));
+                        }
                         if let Some(e) = exec_err {
                             return Some(viol(format!("C13/I5 {mt} plugin execution fails on a parseable message"), format!("operation {seq} on subject {m}: {e}")));
                         }
@@ -906,7 +963,8 @@ impl Engine for C13 {
             let sibling_of = if k > 0 && w.chance(1, 3) { Some(0) } else { None };
             let (scenario, donor) = if sibling_of.is_some() { (subjects[0].scenario.clone(), subjects[0].donor.clone()) } else { (sc.rel.clone(), donor) };
             let attempts = if target >= 2 { 36 } else { 14 };
-            subjects.push(SubjectSpec { scenario, donor, donor2, sibling_of, plan: MutPlan::Climb { seed: derive(run_seed, "climb", k as u64), target, attempts } });
+            let output_header = w.chance(1, 6);
+            subjects.push(SubjectSpec { scenario, donor, donor2, sibling_of, output_header, plan: MutPlan::Climb { seed: derive(run_seed, "climb", k as u64), target, attempts } });
         }
         let callers = 1 + s.below(4);
         let n_ops = 6 + s.below(19);
@@ -1026,10 +1084,30 @@ impl Engine for C13 {
                         }
                     }
                 }
-                let Some((text, parsed)) = build(&sc.mt, &g) else {
+                let Some((mut text, mut parsed)) = build(&sc.mt, &g) else {
                     out.discard = Some(format!("subject outside the domain (not publishable / not parseable): MT{}", sc.mt));
                     return (out, None);
                 };
+                if ss.output_header {
+                    // {2:I<mt><receiver 12><priority…>} → {2:O<mt><input time><MIR: date, LT, session, sequence><output date><output time><priority>}
+                    if let Some(a) = text.find("{2:I") {
+                        if let Some(end) = text[a..].find('}') {
+                            let inner = &text[a + 3..a + end];
+                            if inner.len() >= 16 {
+                                let lt = &inner[4..16];
+                                let out_hdr = format!("{{2:O{}1535051028{}08264556280510281535N}}", &inner[1..4], lt);
+                                let rewritten = format!("{}{}{}", &text[..a], out_hdr, &text[a + end + 1..]);
+                                if let Ok(p) = std::panic::catch_unwind(std::panic::AssertUnwindSafe(|| mt::parse_auto(&rewritten))) {
+                                    if let Ok(p) = p {
+                                        text = rewritten;
+                                        parsed = p;
+                                        out.count("probe.subject_with_output_application_header", 1);
+                                    }
+                                }
+                            }
+                        }
+                    }
+                }
                 resolved.subjects[k].plan = MutPlan::Explicit(accepted.clone());
                 let snap = snap_digest(&parsed);
                 out.log.push(format!("subject {k} MT{} text={} bytes={} muts={}", parsed.message_type(), hex(fnv_str(&text)), text.len(), serde_json::to_string(&accepted).unwrap_or_default().chars().take(300).collect::<String>()));
@@ -1105,10 +1183,13 @@ impl Engine for C13 {
                         out.artifacts.push(json!({"mt": s.mt, "text": s.text, "codes": codes}));
                     }
                     if !codes.is_empty() {
-                        let mut set: Vec<&String> = codes.iter().collect();
-                        set.sort();
-                        set.dedup();
-                        out.harvest.push(format!("MT{}|{}", s.mt, set.iter().map(|c| c.as_str()).collect::<Vec<_>>().join("+")));
+                        // message type × multiset of codes (multiplicity capped at 3): "MT101|D67x3+E46"
+                        let mut cnt: BTreeMap<&str, usize> = BTreeMap::new();
+                        for c in codes {
+                            *cnt.entry(c.as_str()).or_insert(0) += 1;
+                        }
+                        let key: Vec<String> = cnt.iter().map(|(c, n)| if *n > 1 { format!("{c}x{}", (*n).min(3)) } else { c.to_string() }).collect();
+                        out.harvest.push(format!("MT{}|{}", s.mt, key.join("+")));
                     }
                     let n_ops = a.history.recs.iter().filter(|r| r.2 == m).count();
                     if !l.is_empty() && n_ops >= 2 {
